@@ -21,8 +21,9 @@ def _mk_violation(world, j, diff, fault_spec, oc, history):
             'history_faults': copy.deepcopy(history)}
 
 
-def _fault_spec(events, k, exc):
-    return {'k': k, 'exc': exc, 'identity': identity(events[k]), 'occ': occurrence(events, k)}
+def _fault_spec(events, k, exc, when='entry'):
+    return {'k': k, 'exc': exc, 'identity': identity(events[k]), 'occ': occurrence(events, k),
+            'when': when}
 
 
 def run_one(seed, tier, scratch=None, max_violations=3):
@@ -35,7 +36,7 @@ def explore(desc, tier, scratch=None, max_violations=3):
     t0 = _walltime.perf_counter()
     st = {'invocations': 0, 'recordings': 0, 'injected_runs': 0, 'l1_sites': 0, 'l2_sites': 0,
           'l1_swept': 0, 'l2_sampled': 0, 'in_window_faults': 0, 'absorbed': 0, 'diverged': 0,
-          'faults_by_exc': {}, 'outcomes': {}, 'entries': {}, 'probes': {},
+          'faults_by_exc': {}, 'faults_by_when': {}, 'return_fault_not_delivered': 0, 'outcomes': {}, 'entries': {}, 'probes': {},
           'natural_failures': 0, 'clean_returns': 0, 'sim_seconds': 0.0}
     trace = []
     violations = []
@@ -55,7 +56,7 @@ def explore(desc, tier, scratch=None, max_violations=3):
             st['recordings'] += 1
             m = rec['monitor']
             events = m.events
-            r = inject.admissible_limit(m)
+            r, open_at_r = inject.admissibility(m)
             l1 = inject.l1_codes(m, world.entry_keys(j))
             win = driver.window_start(m)
             oc = outcome_class(world, rec)
@@ -70,12 +71,13 @@ def explore(desc, tier, scratch=None, max_violations=3):
                 violations.append(_mk_violation(world, j, rec['diff'], None, oc, history))
             if oc[0] != 'returned' and win is not None:
                 nontrivial.add(util.canon([entry, entry_state, _cfg_class(inv), oc[1:]]))
-            blocked, owin = inject.other_windows(m)
+            blocked, owin, open_other = inject.other_windows(m)
             if owin:
                 st['probes']['other_variable_mutated_by_code_under_test'] = \
                     st['probes'].get('other_variable_mutated_by_code_under_test', 0) + 1
             plan, nl1, nl2 = driver.plan_faults(events, r, l1, win, inv, tier, entry,
-                                                   agg=world.w['plots'] != 'stub', blocked=blocked, owin=owin)
+                                                   agg=world.w['plots'] != 'stub', blocked=blocked, owin=owin,
+                                                   still_open=open_at_r | open_other)
             st['l1_sites'] += nl1
             st['l2_sites'] += nl2
             tr = {'j': j, 'entry': entry, 'n_events': len(events), 'r': r, 'win': win,
@@ -83,34 +85,47 @@ def explore(desc, tier, scratch=None, max_violations=3):
                   'mutations': [[mu['op'], mu['key'], mu['at']] for mu in m.mutations],
                   'recording': {'outcome': oc, 'diff': rec['diff']}, 'injected': []}
             # ---- sweep ------------------------------------------------------
-            for (k, exc, scope) in plan:
+            for (k, exc, scope, when) in plan:
                 world.restore_rw()
-                f = inject.Fault(k, exc, tuple(identity(events[k])))
+                f = inject.Fault(k, exc, tuple(identity(events[k])), when=when)
                 res = world.execute(j, fault=f, keep_events=False)
                 st['injected_runs'] += 1
                 st['faults_by_exc'][exc] = st['faults_by_exc'].get(exc, 0) + 1
+                st['faults_by_when'][when] = st['faults_by_when'].get(when, 0) + 1
                 if scope == 'L1':
                     st['l1_swept'] += 1
                 else:
                     st['l2_sampled'] += 1
                 mm = res['monitor']
-                if mm.diverged is not None or mm.fired is None:
+                if mm.diverged is not None:
                     st['diverged'] += 1
-                    tr['injected'].append([k, exc, 'diverged'])
+                    tr['injected'].append([k, exc, when, 'diverged'])
+                    continue
+                if mm.fired is None:
+                    if when == 'return':
+                        # the call raised by itself (or never returned to its frame): nothing to add
+                        st['return_fault_not_delivered'] += 1
+                        tr['injected'].append([k, exc, when, 'not-delivered', res['diff']])
+                        if res['diff'] and len(violations) < 50:
+                            violations.append(_mk_violation(world, j, res['diff'], None,
+                                                            outcome_class(world, res), history))
+                    else:
+                        st['diverged'] += 1
+                        tr['injected'].append([k, exc, when, 'diverged'])
                     continue
                 oc2 = outcome_class(world, res)
                 inwin = win is not None and k >= win
                 if inwin:
                     st['in_window_faults'] += 1
                     nontrivial.add(util.canon([entry, entry_state, _cfg_class(inv),
-                                               [events[k]['caller'], events[k]['line'], exc]]))
+                                               [events[k]['caller'], events[k]['line'], exc, when]]))
                 if oc2[0] in ('returned', 'raised-after-absorbed-fault'):
                     st['absorbed'] += 1
                 st['outcomes'][oc2[0]] = st['outcomes'].get(oc2[0], 0) + 1
-                tr['injected'].append([k, exc, oc2, res['diff']])
+                tr['injected'].append([k, exc, when, oc2, res['diff']])
                 if res['diff'] and len(violations) < 50:
                     violations.append(_mk_violation(world, j, res['diff'],
-                                                    _fault_spec(events, k, exc), oc2, history))
+                                                    _fault_spec(events, k, exc, when), oc2, history))
             # ---- chained faults: a second failure while the first is being handled ------
             nchain = {'quick': 2, 'thorough': 12}.get(tier, 2)
             for (kA, excA, oc2) in _pick_chain_heads(tr['injected'], events, win, inv, nchain):
@@ -123,7 +138,7 @@ def explore(desc, tier, scratch=None, max_violations=3):
                     st['diverged'] += 1
                     continue
                 rA = inject.admissible_limit(mA)
-                blockedA, _ = inject.other_windows(mA)
+                blockedA = inject.other_windows(mA)[0]
                 path = [e for e in mA.events[kA + 1:rA] if e['adm'] and
                         not any(lo <= e['i'] < hi for lo, hi in blockedA)]
                 st['exception_path_sites'] = st.get('exception_path_sites', 0) + len(path)
@@ -141,7 +156,7 @@ def explore(desc, tier, scratch=None, max_violations=3):
                         st['diverged'] += 1
                         continue
                     ocB = outcome_class(world, resB)
-                    tr['injected'].append([[kA, eB['i']], [excA, excB], ocB, resB['diff']])
+                    tr['injected'].append([[kA, eB['i']], [excA, excB], 'chain', ocB, resB['diff']])
                     nontrivial.add(util.canon([entry, entry_state, _cfg_class(inv), 'chain',
                                                [eB['caller'], eB['line'], excB]]))
                     if resB['diff'] and len(violations) < 50:
@@ -158,8 +173,9 @@ def explore(desc, tier, scratch=None, max_violations=3):
                 spec = None
                 res = world.execute(j, fault=None, keep_events=False)
             else:
-                spec = _fault_spec(events, sel[0], sel[1])
-                res = world.execute(j, fault=inject.Fault(sel[0], sel[1], tuple(spec['identity'])),
+                when3 = sel[2] if sel[0] not in (open_at_r | open_other) else 'entry'
+                spec = _fault_spec(events, sel[0], sel[1], when3)
+                res = world.execute(j, fault=inject.Fault(sel[0], sel[1], tuple(spec['identity']), when=when3),
                                     keep_events=False)
                 st['injected_runs'] += 1
             oc3 = outcome_class(world, res)
@@ -187,9 +203,9 @@ def _pick_chain_heads(injected, events, win, inv, n):
     heads = []
     seen = set()
     for rec in injected:
-        if len(rec) < 4 or not isinstance(rec[0], int):
+        if len(rec) < 5 or not isinstance(rec[0], int) or rec[2] != 'entry' or not isinstance(rec[3], list):
             continue
-        k, exc, oc = rec[0], rec[1], rec[2]
+        k, exc, oc = rec[0], rec[1], rec[3]
         if win is None or k < win:
             continue
         site = (events[k]['caller'], events[k]['line'])
